@@ -100,6 +100,13 @@ func init() {
 				bp = append(bp, fmt.Sprint(b))
 			}
 			cases = append(cases, Case{"cmd": "scalar", "field": "bpm", "vals": bp})
+			// the same numbers spelled with leading zeros (decimal numerals: 010 is ten, 08 is eight)
+			cases = append(cases,
+				Case{"cmd": "scalar", "field": "degree", "vals": []string{"01", "07", "08", "09", "010", "b010", "#011", "012", "0013", "bb07"}},
+				Case{"cmd": "scalar", "field": "base", "vals": []string{"03", "08", "09", "010", "b010", "0012"}},
+				Case{"cmd": "scalar", "field": "value", "vals": []string{"01", "08", "09", "010", "1/08", "1/010", "010/08", "0100/0100", "007/0960", "00000000000000000000012"}},
+				Case{"cmd": "scalar", "field": "meter", "vals": []string{"03/04", "08/08", "09/08", "010/08", "012/010", "6/008"}},
+				Case{"cmd": "scalar", "field": "bpm", "raw": true, "vals": []string{"0120", "090", "08", "0100", "000060"}})
 			for i := 0; i < nc; i++ {
 				o := GenOpt{MaxLen: 8, RestP: 0.25, KeyP: 0.2, SettingP: 0.2, TextP: 0.3, Fractions: true, MultiVals: true, MaxDeg: 15, AllMarks: true, BassP: 0.4,
 					Syms: allSymbols(), Texts: sampleTexts, FirstChord: true}
@@ -153,9 +160,13 @@ func init() {
 					case "value":
 						m["values"] = []string{v}
 					case "bpm":
-						var n int
-						fmt.Sscan(v, &n)
-						m["bpm"] = n
+						if cb(k, "raw") { // the numeral as written, unquoted
+							m["bpm"] = &yaml.Node{Kind: yaml.ScalarNode, Tag: "!!int", Value: v}
+						} else {
+							var n int
+							fmt.Sscan(v, &n)
+							m["bpm"] = n
+						}
 					default:
 						m[field] = v
 					}
